@@ -92,6 +92,11 @@ def gen_program(rng, profile, index=None):
                        'out': _w(rng, [('return', 7), ('raise', 3), ('raise_base', 1), ('raise_cancelled', 1)]),
                        'delay': _w(rng, [(0.0, 4), (Q, 3), (4 * Q, 2)]), 'start': _w(rng, [(0.0, 6), (Q, 2)])})
         prog['phase2'] = {'target': t2, 'callers': c2}
+    last = prog['phase2']['target'] if prog.get('phase2') else target
+    if last == 'running' and rng.random() < 0.35:
+        # The stop function of the LAST phase is called by two threads at once: each call may return only once the loop has
+        # stopped.  (Only in the last phase: a second stop request that arrives after the loop stopped stays queued in it.)
+        prog['stoppers'] = 2
     return prog
 
 
@@ -260,10 +265,16 @@ class CrossWorld:
         ths = [sch.spawn(partial(self.caller_thread, C), f'caller{C.i}') for C in cs]
         sch.join(ths)
         if stop is not None:
-            stop()
-            if self.target.is_running():
-                self.viol('loop_in_thread.stopper_returned_while_running', 'the stop function returned while the loop still runs',
-                          f'step {sch.step}')
+            def stop_and_check(who):
+                stop()
+                if self.target.is_running():
+                    self.viol('loop_in_thread.stopper_returned_while_running', 'the stop function returned while the loop still runs',
+                              f'step {sch.step} ({who})', concurrent_stoppers=self.prog.get('stoppers', 1))
+            last = self.phase == (2 if self.prog.get('phase2') else 1)
+            extra = [sch.spawn(partial(stop_and_check, f'stopper thread {k}'), f'stopper{k}')
+                     for k in range(1, self.prog.get('stoppers', 1) if last else 1)]
+            stop_and_check('main thread')
+            sch.join(extra)
 
     def main(self):
         sch = self.sch
